@@ -165,6 +165,8 @@ contract(M + "FortranReaderBase.handle_inline_comment",
         "queue_only_grows_by_the_comment": "implies(result[2] and buffer_comments_to_fifo, len(self.fifo_item) == len(old(self.fifo_item)) + 1 "
                                            "and list(self.fifo_item)[:len(old(self.fifo_item))] == list(old(self.fifo_item)))",
         "queue_untouched_otherwise": "implies(not result[2] or not buffer_comments_to_fifo, list(self.fifo_item) == list(old(self.fifo_item)))",
+        # a comment runs to the end of the line: quotation marks inside it never open a literal that continues
+        "comment_ends_any_literal": "implies(result[2], result[1] is None)",
         "quote_state_is_a_quote": "result[1] is None or result[1] == \"'\" or result[1] == '\"'",
     },
     raises=[],
